@@ -47,7 +47,7 @@ theorem C10_assignment_consumed (elems : List Node) (st : St) : (buildIife elems
           | (out, st) =>
             match elem with
             | .mk .arg _ [.mk .ident (n :: b :: r) ks] =>
-              if n == identName left then
+              if n == identName left && b == identBind left then
                 let (name, st) := st.fresh ("_" ++ n)
                 let init := nCall (nFnExpr [] [nReturn (.mk .ident (n :: b :: r) ks)]) []
                 (out ++ [nArg name], { st with injectingConsts := st.injectingConsts ++ [nDeclarator name init] })
